@@ -74,6 +74,34 @@ instance (sv : Bool) (xs : List Int) (op : Op) (ans : Ans) (xs' : List Int) :
   unfold Allowed
   cases op <;> simp only <;> infer_instance
 
+/-- The admitted outcome as a function: what `Allowed` prescribes wherever it leaves no choice (everything except
+`Shift` on a one-element list, where the remaining value is open; this function then keeps the sequence).  Used by
+the monitor for *quiet* operations of long runs, whose sequence is not printed after every step
+(`Theorems/C19.lean: next_allowed`, `allowed_eq_next`). -/
+def next (shiftVal : Bool) (xs : List Int) : Op → Ans × List Int
+  | .unshift v => (.ok, v :: xs)
+  | .append v => (.ok, xs ++ [v])
+  | .shift => (if shiftVal then .val (xs.head?.getD 0) else .ok, if xs.length > 1 then xs.tail else xs)
+  | .pop => (.ok, if xs.length > 1 then xs.dropLast else xs)
+  | .insertAfter x v => if x ∈ xs then (.ok, insertAfterFirst x v xs) else (.notFound, xs)
+  | .insertBefore x v => if x ∈ xs then (.ok, insertBeforeFirst x v xs) else (.notFound, xs)
+  | .delete x =>
+    if x ∈ xs then (if xs.length > 1 then (.ok, xs.erase x) else (.err, xs)) else (.notFound, xs)
+  | .replace o n => if o ∈ xs then (.ok, replaceFirst o n xs) else (.err, xs)
+  | .find x => (.bool (decide (x ∈ xs)), xs)
+  | .first => (.val (xs.head?.getD 0), xs)
+  | .last => (.val (xs.getLast?.getD 0), xs)
+  | .each => (.none, xs)
+
+/-- the `n` values `a, a+1, …` pushed to the front one by one (`fill`): the last one pushed comes first -/
+def fillFront (a : Int) : Nat → List Int → List Int
+  | 0, xs => xs
+  | n + 1, xs => fillFront (a + 1) n (a :: xs)
+
+/-- position-weighted checksum of a sequence (quiet observation of long lists) -/
+def checksum (xs : List Int) : Int :=
+  (xs.foldl (fun (acc : Int × Int) v => ((acc.1 + acc.2 * v) % 1000000007, acc.2 + 1)) (0, 1)).1
+
 /-- A whole observed history `obs` (answer, sequence observed afterwards — one entry per operation)
 is admitted from the sequence `xs`. -/
 def Holds (sv : Bool) : List Int → List Op → List (Ans × List Int) → Prop
